@@ -282,21 +282,40 @@ pub fn build_cond(spec: &CondSpec) -> Box<dyn InputCondition> {
     }
 }
 
+/// The input a spec denotes, built through the different public ways of denoting it (all equivalent by the crate's
+/// documentation): `From` conversions, `with_mod_keys`, `without_mod_keys`, the `mouse_motion` / `mouse_wheel`
+/// constructors, or the enum literally — chosen by the spec itself, so every way is exercised by every stream.
 fn build_input(spec: &InputSpec) -> Input {
     let mods = ModKeys::from_bits_truncate;
     match *spec {
+        InputSpec::Key(k, 0) if k % 2 == 0 => KEYS[k].into(),
+        InputSpec::Key(k, 0) => Input::Keyboard {
+            key: KEYS[k],
+            mod_keys: ModKeys::ALT,
+        }
+        .without_mod_keys(),
+        InputSpec::Key(k, m) if m % 2 == 1 => KEYS[k].with_mod_keys(mods(m)),
         InputSpec::Key(k, m) => Input::Keyboard {
             key: KEYS[k],
             mod_keys: mods(m),
         },
+        InputSpec::MBtn(b, 0) => MOUSE_BUTTONS[b].into(),
+        InputSpec::MBtn(b, m) if m % 2 == 1 => MOUSE_BUTTONS[b].with_mod_keys(mods(m)),
         InputSpec::MBtn(b, m) => Input::MouseButton {
             button: MOUSE_BUTTONS[b],
             mod_keys: mods(m),
         },
+        InputSpec::Motion(0) => Input::mouse_motion(),
+        InputSpec::Motion(m) if m % 2 == 1 => Input::mouse_motion().with_mod_keys(mods(m)),
         InputSpec::Motion(m) => Input::MouseMotion { mod_keys: mods(m) },
+        InputSpec::Wheel(0) => Input::mouse_wheel(),
+        InputSpec::Wheel(m) if m % 2 == 1 => Input::MouseWheel {
+            mod_keys: ModKeys::SUPER,
+        }
+        .with_mod_keys(mods(m)),
         InputSpec::Wheel(m) => Input::MouseWheel { mod_keys: mods(m) },
-        InputSpec::PadBtn(b) => Input::GamepadButton(PAD_BUTTONS[b]),
-        InputSpec::PadAxis(x) => Input::GamepadAxis(PAD_AXES[x]),
+        InputSpec::PadBtn(b) => PAD_BUTTONS[b].into(),
+        InputSpec::PadAxis(x) => PAD_AXES[x].into(),
     }
 }
 
